@@ -244,6 +244,21 @@ pub fn lit_sentinels() -> Vec<Program> {
     // RWC+syncs / W+RWC from tests/fence.rs
     out.push(mk("S-RWC+syncs", 2, vec![vec![st(0, 1, Rlx)], vec![ld(0, Rlx), fence(Sc), ld(1, Rlx)], vec![st(1, 1, Rlx), fence(Sc), ld(0, Rlx)]]));
     out.push(mk("S-W+RWC", 3, vec![vec![st(0, 1, Rlx), st(2, 1, Rel)], vec![ld(2, Acq), fence(Sc), ld(1, Rlx)], vec![st(1, 1, Rlx), fence(Sc), ld(0, Rlx)]]));
+    // message passing where the flag is read by a compare_exchange, every (success, failure)
+    // ordering pair, expecting the initial value (fails on the flag) or the flag value (succeeds)
+    for &st_o in &MO::STORES {
+        for &sc in &MO::RMWS {
+            for &fc in &MO::LOADS {
+                for exp in [0u64, 1] {
+                    out.push(mk("S-MP-cas", 2, vec![vec![st(0, 1, Rlx), st(1, 1, st_o)], vec![cas(1, exp, 9, sc, fc), ld(0, Rlx)]]));
+                }
+                if st_o == Rel {
+                    // two hops: the CAS thread republishes with a release store
+                    out.push(mk("S-MP-cas-2hop", 3, vec![vec![st(0, 1, Rlx), st(1, 1, Rel)], vec![cas(1, 0, 9, sc, fc), st(2, 1, Rel)], vec![ld(2, Acq), ld(0, Rlx)]]));
+                }
+            }
+        }
+    }
     // S28: history ring overflow (9 stores to one location || 2 loads); soundness only
     out.push(mk("S28-overflow", 1, vec![(1..=9).map(|v| st(0, v, Rlx)).collect(), vec![ld(0, Rlx), ld(0, Rlx)]]));
     out
@@ -867,6 +882,21 @@ pub fn race_a_sentinels() -> Vec<Program> {
     // release sequence through an RMW of a third thread
     for &u in &MO::RMWS {
         out.push(mk("S29-relseq", 1, vec![vec![wr(0), st(0, 1, Rel)], vec![fadd(0, 16, u)], vec![ld(0, Acq), g(K::CellRead { c: 0 }, 0, 17)]]));
+    }
+    // the flag is read by a compare_exchange: every (success, failure) ordering pair; the cell is
+    // read if the CAS failed on the flag (exp 0) / succeeded on it (exp 1)
+    for &s in &[Rlx, Rel] {
+        for &sc in &MO::RMWS {
+            for &fc in &MO::LOADS {
+                out.push(mk("S29-mp-cas-fail", 1, vec![vec![wr(0), st(0, 1, s)], vec![cas(0, 0, 9, sc, fc), K::CellRead { c: 0 }.when(0, Res::Err(1))]]));
+                out.push(mk("S29-mp-cas-ok", 1, vec![vec![wr(0), st(0, 1, s)], vec![cas(0, 1, 9, sc, fc), K::CellRead { c: 0 }.when(0, Res::Ok(1))]]));
+                out.push(mk(
+                    "S29-mp-cas-2hop",
+                    2,
+                    vec![vec![wr(0), st(0, 1, s)], vec![cas(0, 0, 9, sc, fc), K::Store { a: 1, v: 1, mo: Rel }.when(0, Res::Err(1))], vec![ld(1, Acq), g(K::CellRead { c: 0 }, 0, 1)]],
+                ));
+            }
+        }
     }
     // S30 SeqCst fences are not happens-before
     out.push(mk("S30", 0, vec![vec![wr(0), fence(Sc)], vec![fence(Sc), rd(0)]]));
